@@ -33,14 +33,19 @@ class C10(Check):
     def bounds(self, tier):
         if tier == 'quick':
             return {'W': '1..4', 'N': '1..3', 'T': 'W..W+3', 'series': '1..3, lengths W..W+2 independently',
-                    'labels': 'symbolic ints', 'split': '1..3 series of 1..3 stacked points, W 1..5'}
+                    'labels': 'symbolic ints', 'split': '1..3 series of 1..3 stacked points, W 1..5',
+                    'call history': 'one earlier stacking of any other geometry (W 1..3, N 1..3, T W..W+2) in the same process'}
         return {'W': '1..12', 'N': '1..6', 'T': 'W..W+40 (the whole range the property states)', 'series': '1..6, lengths W..W+2 independently (W<=4, N<=2; 5-6 series: W<=2)',
-                'labels': 'symbolic ints', 'split': '1..4 series of 1..4 stacked points, W 1..9'}
+                'labels': 'symbolic ints', 'split': '1..4 series of 1..4 stacked points, W 1..9',
+                'call history': 'one earlier stacking of any other geometry (W 1..4, N 1..4, T W..W+3) in the same process'}
 
     def configs(self, tier):
         q = tier == 'quick'
         cfgs = [Config('stack', self.stack, {'Wmax': 4 if q else 12, 'Nmax': 3 if q else 6, 'dT': 3 if q else 40},
                        split=2, witness_every=5 if q else 97, max_fanout=128)]
+        # call history: an earlier stacking of another geometry in the same process
+        cfgs.append(Config('stack_after_another', self.stack_twice, {'Wmax': 3 if q else 4, 'Nmax': 3 if q else 4, 'dT': 2 if q else 3},
+                           split=3, witness_every=23, max_fanout=128))
         for S in ([1, 2, 3] if q else [1, 2, 3, 4, 5, 6]):
             cfgs.append(Config('multi_S%d' % S, self.multi,
                                {'S': S, 'Wmax': 3 if q else (4 if S <= 4 else 2), 'Nmax': 2, 'dT': 2 if S <= 5 else 1},
@@ -77,6 +82,34 @@ class C10(Check):
         c.prove('stack_leaves_input_untouched',
                 conj([stubs.unchanged(snap, data), not [w for w in np.WRITE_LOG if w[0] == 'caller'],
                       out._b is not data._b]))
+
+    def stack_twice(self, c, Wmax, Nmax, dT):
+        dp = self.R.data_preparation
+        geo = []
+        for t in ('first', 'second'):
+            W = int(c.int('W_' + t, 1, Wmax))
+            N = int(c.int('N_' + t, 1, Nmax))
+            T = int(c.int('T_' + t, W, W + dT))
+            geo.append((T, N, W))
+        (T0, N0, W0), (T, N, W) = geo
+        first = stubs.sym_array(c, 'e', (T0, N0), kind='bits')
+        ok, _ = guarded(c, 'stack_is_exact_copy', dp.stack_training_data, first, W0)
+        if not ok:
+            return
+        data = stubs.sym_array(c, 'd', (T, N), kind='bits')
+        snap = stubs.snapshot(data)
+        c.notes.update({'T': T, 'N': N, 'W': W, 'first': {'T': T0, 'N': N0, 'W': W0}})
+        ok, out = guarded(c, 'stack_is_exact_copy', dp.stack_training_data, data, W)
+        if not ok:
+            return
+        f = [isinstance(out, np.ndarray) and out.shape == (T - W + 1, N * W)]
+        if f[0]:
+            for i in range(T - W + 1):
+                for j in range(W):
+                    for k in range(N):
+                        f.append(stubs.same_terms(out[i, j * N + k], data[i + j, k]))
+            f.append(stubs.unchanged(snap, data))
+        c.prove('stack_is_exact_copy', conj(f))
 
     def multi(self, c, S, Wmax, Nmax, dT):
         dp = self.R.data_preparation
